@@ -236,7 +236,9 @@ pub fn unflatten(c: &mut HashMap<String, Map<String, Value>>, value: &Value) -> 
                             panic!("expecting_order_field_in_descriptor")
                         }
                     }
-                    None => panic!("unknown_descriptor_object"),
+                    // The descriptor may be missing because its winning revision is a deletion
+                    // (the flattened field was concurrently removed): the array is empty
+                    None => Some(Value::from(Vec::<Value>::new())),
                 }
             } else {
                 match c.remove(s) {
